@@ -179,6 +179,20 @@ pub fn check(c: &Case) -> Outcome {
         // accuracy "of C01/C07": C07's order statement holds in the asymptotic range, so samples inside
         // steps that are long compared with the solution's time scale (h*rate > 1) are not judged
         let coarse = steps.windows(2).any(|w| (t - w[0]) * d >= 0.0 && (w[1] - t) * d >= 0.0 && prob.rate_t() * (w[1] - w[0]).abs() > 1.0);
+        if plain.status == Status::Success && c.base.method == Meth::RK4 && !coarse && plain.t.len() >= 2 {
+            // fixed-step RK4 has no tolerance: C07's statement for its cubic Hermite interpolant, relative to the
+            // errors at the two ends of the step containing t (10 x those + |y| (rate h)^4)
+            let m = plain.t.len();
+            let i = (0..m - 1).find(|&i| (t - plain.t[i]) * d >= 0.0 && (plain.t[i + 1] - t) * d >= 0.0).unwrap_or(m - 2);
+            let e0 = max_abs_diff(&plain.y[i], &prob.exact(plain.t[i]));
+            let e1 = max_abs_diff(&plain.y[i + 1], &prob.exact(plain.t[i + 1]));
+            let h = (plain.t[i + 1] - plain.t[i]).abs();
+            let allow = 10.0 * e0.max(e1) + ymax * (prob.rate_t() * h).powi(4) + 64.0 * f64::EPSILON * (1.0 + ymax) * (m as f64).sqrt() + lmax * 8.0 * ulp(sp.x0.abs().max(sp.xend.abs()));
+            let err = max_abs_diff(&prob.exact(*t), yi);
+            if err > allow {
+                return Outcome::viol(format!("{}: value at requested time {:e} (step {} of {}, h={:e}) is off the exact solution by {:e} while the step ends are accurate to {:e} / {:e} (allowed {:e})", name, t, i, m - 1, h, err, e0, e1, allow));
+            }
+        }
         if plain.status == Status::Success && c.base.method != Meth::RK4 && !coarse {
             let ex = prob.exact(*t);
             let err = max_abs_diff(&ex, yi);
